@@ -102,7 +102,7 @@ class TlsAlertDescription(enum.IntEnum):
     CERTIFICATE_UNKNOWN = 0x2e
     ILLEGAL_PARAMETER = 0x2f
     UNKNOWN_CA = 0x30
-    ACCESS_DENIED = 0x30
+    ACCESS_DENIED = 0x31
     DECODE_ERROR = 0x32
     DECRYPT_ERROR = 0x33
     PROTOCOL_VERSION = 0x46
@@ -222,7 +222,7 @@ class TlsHandshakeType(enum.IntEnum):
     SUPPLEMENTAL_DATA = 0x17
     KEY_UPDATE = 0x18
     COMPRESSED_CERTIFICATE = 0x19
-    EKT_KEY = 0x15
+    EKT_KEY = 0x1a
     MESSAGE_HASH = 254
 
 
